@@ -9,7 +9,7 @@ requested by class or subclass; request i == request 1; the caller's filter attr
 import copy
 import io
 
-from vlib import core, ev, wire, gen, histories as H
+from vlib import core, ev, wire, gen, domain, histories as H
 from props import c14
 
 LEVEL = 'exploration'
@@ -71,6 +71,10 @@ def gen_config(rng, dump, with_process):
                    if codes.get(e.eventid) in ('TRACE_STRING_EXEC', 'TRACE_STRING_NEWTHREAD')]
         if learned:
             proc = rng.choice(learned)
+    elif with_process and proc is not None and rng.random() < 0.3:
+        # near misses of a declared process: its pid spelled another way, its name in another case / with a blank / cut
+        k = rng.randrange(len(dump['entries']))
+        proc = rng.choice(domain.near_miss_spellings(dump['entries'][k][1], dump['entries'][k][2].decode('utf-8', 'replace')))
     return {'tid': tid, 'classes': tuple(classes) if as_tuple else list(classes),
             'subs': tuple(subs) if as_tuple else list(subs), 'process': proc}
 
@@ -322,6 +326,45 @@ def check_reconfigured(res, rng, dump, unfiltered):
             return
 
 
+def census(res, ctx, rng):
+    """Every code of the bundled table once as a record nested inside a BSD call (H.census_nested: where a code's name
+    extends a decoder's name, inside that decoder's window), in dumps of 60 calls each: with the filter asking for the
+    BSD syscall subclass (or the BSD class, or both) the calls read exactly as in the unfiltered run - a decoder must not
+    draw on records the filter's helper classes do not admit."""
+    from pykdebugparser.pykdebugparser import PyKdebugParser
+    decodable = set(H.inventory()['decodable'])
+    table = ev.bundled_codes()
+    todo = [(d, cid) for i, (d, cid) in enumerate(H.census_nested()) if ctx.mine(i)]
+    for b in range(0, len(todo), 60):
+        prog = []
+        for d, cid in todo[b:b + 60]:
+            name = table[cid]
+            if name in domain.TEXT_PAYLOAD or (cid >> 24) == 7 or name == 'VFS_LOOKUP':
+                continue                    # helper classes and multi-record texts have workloads of their own
+            payload = domain.gen_single(rng, name) if name in decodable else [domain.rng_word(rng) for _ in range(4)]
+            prog += H.gen_syscall(rng, d, [H.A(cid, H.NONE, payload)])
+        if not prog:
+            continue
+        events = H.materialize(H.on_thread(11, prog), t0=0x100000001)
+        entries = [(11, 100, b'proc0', b'')]
+        dump = {'data': wire.v2_file(entries, 8, gen.events_to_records(events)), 'events': events, 'entries': entries,
+                'static_map': True}
+        try:
+            unfiltered = [key(t) for t in PyKdebugParser().traces(io.BytesIO(dump['data']))]
+        except Exception as x:
+            res.violation(f'c13-raises-{core.exc_name(x)}', f'census dump: {x!r}', {'file': dump['data']})
+            return
+        for cfg in ({'tid': None, 'classes': [], 'subs': [0x040c], 'process': None},
+                    {'tid': None, 'classes': [4], 'subs': [], 'process': None},
+                    {'tid': 11, 'classes': [], 'subs': [0x040c, 0x010c], 'process': 'proc0'}):
+            before = len(res.violations)
+            check(res, rng, dump, cfg, unfiltered, None)
+            if len(res.violations) > before:
+                return
+        res.count('census_dumps')
+        res.count('census_codes_nested', len(todo[b:b + 60]))
+
+
 def long_capture(res, ctx, rng, n_workers):
     """Scale ladder: process and thread filters on a long capture (thousands of short-lived threads); membership is
     judged with the incremental table model of C14 (process text of the emitting thread at the trace's trigger)."""
@@ -390,6 +433,7 @@ def run(ctx):
                 check_cli(res, rng, dump, cfg)
         check_reconfigured(res, rng, dump, unfiltered)
         prev = dump
+    census(res, ctx, rng)
     if ctx.shard == 0:
         for n in ctx.pick((2600,), (2600, 12000)):
             long_capture(res, ctx, rng, n)
@@ -410,6 +454,7 @@ def run(ctx):
     res.require('process_filters_on_dumps_with_map_updates', 10)
     res.require('reconfigured_requests', 20)
     res.require('settings_edited_in_place', 5)
+    res.require('census_codes_nested', 2500)
     res.require('cli_requests_compared', 20)
     res.require('long_capture_traces_selected', 100)
     return res
